@@ -299,11 +299,76 @@ impl G<'_, '_> {
         format!("{} {op} {}", self.maybe_paren(l), self.maybe_paren(r))
     }
 
+    /// the elements of a constructor / tuple / list pattern: on one line, or one per line with
+    /// comments in front of some of them (which forces the broken layout), possibly with long
+    /// names (which forces it through the line width)
+    fn pattern_items(&mut self, depth: usize, n: usize, spread: Option<&str>) -> String {
+        let long = self.src.chance(1, 4);
+        let mut items: Vec<String> = (0..n)
+            .map(|i| {
+                if long && self.src.chance(2, 3) {
+                    format!("a_rather_long_name_for_a_pattern_variable_{i}")
+                } else {
+                    self.pattern(depth.saturating_sub(1))
+                }
+            })
+            .collect();
+        if let Some(s) = spread {
+            items.push(s.to_string());
+        }
+        if self.src.chance(1, 4) {
+            let mut out = String::from("\n");
+            for it in &items {
+                if self.src.chance(1, 2) {
+                    out.push_str("// about the next one\n");
+                }
+                out.push_str(it);
+                out.push_str(",\n");
+            }
+            // the parser accepts a trailing comma everywhere but after a spread, where the
+            // formatter itself emits one: keep what was written parseable either way
+            if spread.is_some() && self.src.bool() {
+                out.truncate(out.len() - 2);
+                out.push('\n');
+            }
+            out
+        } else {
+            items.join(", ")
+        }
+    }
+
     fn pattern(&mut self, depth: usize) -> String {
         if depth == 0 {
             return self.src.pick(&["x", "_", "_ignored", "0", "True", "None"]).to_string();
         }
-        match self.src.below(8) {
+        match self.src.below(12) {
+            8 => {
+                let n = 1 + self.src.below(4);
+                let spread = if self.src.chance(2, 3) { Some("..") } else { None };
+                format!("Foo({})", self.pattern_items(depth, n, spread))
+            }
+            9 => {
+                let n = 2 + self.src.below(3);
+                format!("({})", self.pattern_items(depth, n, None))
+            }
+            10 => {
+                let n = 1 + self.src.below(3);
+                let spread = match self.src.below(3) {
+                    0 => None,
+                    1 => Some(".."),
+                    _ => Some("..rest"),
+                };
+                format!("[{}]", self.pattern_items(depth, n, spread))
+            }
+            11 => {
+                let labels = ["i", "b", "c"];
+                let n = 1 + self.src.below(3);
+                let mut fields: Vec<String> = (0..n).map(|i| if self.src.bool() { labels[i].to_string() } else { format!("{}: {}", labels[i], self.pattern(depth - 1)) }).collect();
+                if self.src.chance(2, 3) {
+                    fields.push("..".to_string());
+                }
+                format!("Foo {{ {} }}", fields.join(", "))
+            }
             0 => format!("Some({})", self.pattern(depth - 1)),
             1 => format!("({}, {})", self.pattern(depth - 1), self.pattern(depth - 1)),
             2 => format!("[{}, ..rest]", self.pattern(depth - 1)),
